@@ -1916,38 +1916,19 @@ clientReplyContext::processReplyAccessResult(const Acl::Answer &accessAllowed)
     assert (!flags.headersSent);
     flags.headersSent = true;
 
-    // next()->readBuffer.offset may be positive for Range requests, but our
-    // localTempBuffer initialization code assumes that next()->readBuffer.data
-    // points to the response body at offset 0 because the first
-    // storeClientCopy() request always has offset 0 (i.e. our first Store
-    // request ignores next()->readBuffer.offset).
-    //
-    // XXX: We cannot fully check that assumption: readBuffer.offset field is
-    // often out of sync with the buffer content, and if some buggy code updates
-    // the buffer while we were waiting for the processReplyAccessResult()
-    // callback, we may not notice.
-
+    // The first Store answer always starts at body offset 0 (our first Store
+    // request ignores next()->readBuffer.offset, which may be positive for
+    // Range requests). Hand the received body bytes over as they are, at
+    // offset 0: Http::Stream skips the bytes that precede a requested range
+    // (see Http::Stream::lengthToSend() and packRange()), and it must get the
+    // beginning of the body when it decides to ignore the Range header after
+    // all (e.g., "too complex range header" or a failed If-Range) and sends
+    // the whole 200 response. Advancing the buffer here while leaving its
+    // offset at zero made such 200 responses start in the middle of the body.
     StoreIOBuffer localTempBuffer;
-    const auto body_buf = next()->readBuffer.data;
-
-    //Server side may disable ranges under some circumstances.
-
-    if ((!http->request->range))
-        next()->readBuffer.offset = 0;
-
-    if (next()->readBuffer.offset > 0) {
-        if (Less(body_size, next()->readBuffer.offset)) {
-            /* Can't use any of the body we received. send nothing */
-            localTempBuffer.length = 0;
-            localTempBuffer.data = nullptr;
-        } else {
-            localTempBuffer.length = body_size - next()->readBuffer.offset;
-            localTempBuffer.data = body_buf + next()->readBuffer.offset;
-        }
-    } else {
-        localTempBuffer.length = body_size;
-        localTempBuffer.data = body_buf;
-    }
+    next()->readBuffer.offset = 0;
+    localTempBuffer.length = body_size;
+    localTempBuffer.data = next()->readBuffer.data;
 
     clientStreamCallback((clientStreamNode *)http->client_stream.head->data,
                          http, reply, localTempBuffer);
